@@ -20,6 +20,18 @@ FAMILIES = {
     # finite, deterministic, one answer, arbitrarily deep: needs a limit above the interpreter's default
     'deep': [('deep', [('A', 'z')], 'tru'), ('deep', [('F', 's', [V('N')])], ('call', 'deep', [V('N')]), True)],
     # answers first, then an infinite branch
+    # the deep search runs inside call/N, once/1, findall/3: the depth error passes through them unchanged
+    'call-nat': [('nat', [('A', 'z')], 'tru'), ('nat', [('F', 's', [V('X')])], ('call', 'nat', [V('X')]), True),
+                 ('cnat', [V('X')], ('call', 'call', [('A', 'nat'), V('X')]), True)],
+    'once-left': [('left', [V('X')], ('conj', ('call', 'left', [V('X')]), ('call', 'base', [V('X')])), True), ('base', [('A', 'a')], 'tru'),
+                  ('oleft', [V('X')], ('disj', ('call', '=', [V('X'), ('A', 'first')]), ('call', 'once', [('F', 'left', [V('X')])])), True)],
+    'findall-nat': [('nat', [('A', 'z')], 'tru'), ('nat', [('F', 's', [V('X')])], ('call', 'nat', [V('X')]), True),
+                    ('fnat', [V('L')], ('disj', ('call', '=', [V('L'), ('A', 'first')]), ('call', 'findall', [V('X'), ('F', 'nat', [V('X')]), V('L')])), True)],
+    # the query's own variable is bound and released again at every level of an endless recursion:
+    # wherever the limit strikes, it is unbound afterwards
+    'probe': [('pd', [V('X')], ('conj', ('neg', ('neg', ('call', '=', [V('X'), ('A', 'b')]))), ('call', 'pd', [V('X')])), True)],
+    'probe2': [('pe', [V('X'), V('Y')], ('conj', ('disj', ('ite', ('call', '=', [V('X'), ('F', 'f', [V('Y')])]), 'fail'), 'tru'),
+                                         ('conj', ('call', 'once', [('F', '=', [V('Y'), ('A', 'c')])]), ('neg', ('neg', ('call', 'pe', [V('X'), V('Y')]))))), True)],
     'mixed': [('mixed', [('A', 'a')], 'tru'), ('mixed', [('A', 'b')], 'tru'), ('mixed', [V('X')], ('call', 'mixed2', [V('X')]), True),
               ('mixed2', [V('X')], ('call', 'mixed2', [('F', 'f', [V('X')])]), True)],
 }
@@ -61,7 +73,7 @@ def sxd(x):
 
 def _case(rep, drv, rnd, i, tier):
     fam = rnd.choice(list(FAMILIES) + ['random', 'random', 'inside-unify'])
-    limit = rnd.choice([100, 120, 150, 200, 250, 300, 400])
+    limit = rnd.choice([100, 120, 150, 200, 250, 300, 400]) if rnd.random() < 0.3 else rnd.randint(90, 400)
     raise_at = rnd.choice([None, None, None, 1, 2, 5])
     dyn = []
     if fam == 'random':
@@ -102,6 +114,16 @@ def _case(rep, drv, rnd, i, tier):
             if n >= 500:
                 limit = rnd.choice([3000, 4000])       # a limit above the interpreter's own (1000) must be honoured
             shallow = n >= 500 or (n <= 30 and limit >= 200)
+        elif fam == 'probe':
+            name, args = 'pd', [[Sym('v'), 0]]
+        elif fam == 'probe2':
+            name, args = 'pe', [[Sym('v'), 0], [Sym('v'), 1]]
+        elif fam == 'call-nat':
+            name, args = 'cnat', [[Sym('v'), 0]]
+        elif fam == 'once-left':
+            name, args = 'oleft', [[Sym('v'), 0]]
+        elif fam == 'findall-nat':
+            name, args = 'fnat', [[Sym('v'), 0]]
         else:
             name, args = 'mixed', [[Sym('v'), 0]]
     rep.evaluations += 1
